@@ -731,6 +731,42 @@ pub fn run(ctx: &Ctx) -> Report {
         st = st.merge(part);
     }
 
+    // ---- 1b. a long history: 2^16 + 300 (thorough 2^18 + 300) validations in this process, cycling through the corpus
+    //          in a fixed order that puts every element after every other; each outcome is the fresh-process outcome
+    //          (nothing that counts validations, refusals or acceptances changes what comes out)
+    {
+        let runs: u64 = if thorough { (1 << 18) + 300 } else { (1 << 16) + 300 };
+        let mut part = Stats::new();
+        let mut k = 0usize;
+        let mut stride = 1usize;
+        for step in 0..runs {
+            k = (k + stride) % n;
+            if k == 0 {
+                stride = stride % (n - 1) + 1;
+            }
+            part.evaluations += 1;
+            part.validated += 1;
+            part.transitions += 1;
+            if step % 4096 == 0 {
+                part.nontrivial(&("long-history", step));
+            }
+            let d = run_case(&corp[k].1);
+            if d != fresh[k] {
+                part.violation(Violation {
+                    index: 900_000 + step,
+                    what: format!("outcome-depends-on-how-many-validations-came-before(step {})", step),
+                    case: json!({"long_history_step": step, "element": corp[k].0, "e2e": corp[k].1}),
+                    expected: fresh[k].clone(),
+                    observed: d,
+                    known: None,
+                });
+                break;
+            }
+        }
+        part.outcome("long-history");
+        st = st.merge(part);
+    }
+
     // ---- 2. hash seeds: exhaust joint iteration orders of the query map and the header map
     {
         let mut orders_seen = 0usize;
@@ -1033,7 +1069,7 @@ pub fn run(ctx: &Ctx) -> Report {
     Report {
         stats: st,
         rule: format!(
-            "corpus of {} requests (one per stage of the documented order on each carrier, valid, wrong signature, with and without a session token; folded form, S3 + token, same credential under three tokens, five refusals that stop half-way through an element, six requests under server clocks 10 minutes apart incl. the edges of each window, two other server configurations, four other renderings of the timestamp on both carriers, pairs of equally long bodies of 1023 .. 200 000 bytes with different content and one body under the other's signature); outcome = Ok payload digest (returned parts, body, principal) or error kind; fresh-state outcome of each element = its outcome when validated first in a fresh process. (1) every sequence of 1..{} validations in one process: each step equals its fresh-state outcome; (2) joint iteration orders of the crate's query and header maps exhausted (projection on <= 4 keys each) with identical canonical bytes and outcome, incl. the prefix rule whose error is raised inside a map iteration; (3) one fresh process per corpus element validated first{}; (4a) real threads under a controlled scheduler whose scheduling points are the crate's own log records and every provider event: 6 two-thread pairs ({}), 3 threads at preemption bound {}{}; (4b) 2-3 validation futures multiplexed on one thread with every order of polls (pending body / readiness / key future); built-in canaries (shared scratch buffer) must be caught by 4a and 4b on every run; plus a free-running barrier pass (sampling, supplementary); (5) every sequence of 1..2 (thorough 3) operations {{prevalidate, validate_signature, validate_signature on a clone}} x 3 configurations x 5 server clocks on one authenticator object (unstable API), each operation judged alone; (6) every sequence of up to 4 (thorough 5) steps over 15 symbols — validate one of three requests (everything signed, the declared headers sent but unsigned, no such headers) or add_* / remove_* (always / conditional / prefix, each name in two spellings) — on ONE VecSignedHeaderRequirements object used and edited between validations, each validation judged by the reference verifier for what is declared at that moment; (7) requests on and next to both edges of the freshness window (11 offsets) on both carriers against a key provider that takes 1.1 / 2.1 (thorough 3.1) seconds of wall-clock time: same outcome as with one that answers at once. states = distinct outcomes / outcome vectors",
+            "corpus of {} requests (one per stage of the documented order on each carrier, valid, wrong signature, with and without a session token; folded form, S3 + token, same credential under three tokens, five refusals that stop half-way through an element, six requests under server clocks 10 minutes apart incl. the edges of each window, two other server configurations, four other renderings of the timestamp on both carriers, pairs of equally long bodies of 1023 .. 200 000 bytes with different content and one body under the other's signature); outcome = Ok payload digest (returned parts, body, principal) or error kind; fresh-state outcome of each element = its outcome when validated first in a fresh process. (1) every sequence of 1..{} validations in one process: each step equals its fresh-state outcome; (2) joint iteration orders of the crate's query and header maps exhausted (projection on <= 4 keys each) with identical canonical bytes and outcome, incl. the prefix rule whose error is raised inside a map iteration; (3) one fresh process per corpus element validated first{}; (4a) real threads under a controlled scheduler whose scheduling points are the crate's own log records and every provider event: 6 two-thread pairs ({}), 3 threads at preemption bound {}{}; (4b) 2-3 validation futures multiplexed on one thread with every order of polls (pending body / readiness / key future); built-in canaries (shared scratch buffer) must be caught by 4a and 4b on every run; plus a free-running barrier pass (sampling, supplementary); (5) every sequence of 1..2 (thorough 3) operations {{prevalidate, validate_signature, validate_signature on a clone}} x 3 configurations x 5 server clocks on one authenticator object (unstable API), each operation judged alone; (6) every sequence of up to 4 (thorough 5) steps over 15 symbols — validate one of three requests (everything signed, the declared headers sent but unsigned, no such headers) or add_* / remove_* (always / conditional / prefix, each name in two spellings) — on ONE VecSignedHeaderRequirements object used and edited between validations, each validation judged by the reference verifier for what is declared at that moment; (1b) a history of 2^16 + 300 (thorough 2^18 + 300) validations cycling through the corpus, each outcome equal to the fresh-process outcome; (7) requests on and next to both edges of the freshness window (11 offsets) on both carriers against a key provider that takes 1.1 / 2.1 (thorough 3.1) seconds of wall-clock time: same outcome as with one that answers at once. states = distinct outcomes / outcome vectors",
             n, l, if thorough { " (4 rounds)" } else { "" }, if thorough { "all interleavings" } else { "all schedules with <= 3 preemptions" }, if thorough { 3 } else { 2 }, if thorough { ", 4 threads at bound 2" } else { "" }
         ),
         bounds: json!({"corpus": n, "history_length": l}),
